@@ -300,15 +300,48 @@ def run_contract(reg, con, tier='quick', prefix='', modname='', timeout_ms=None,
     return out
 
 
+POOL_TIMEOUT_S = int(os.environ.get('PV_POOL_TIMEOUT_S', '1500'))
+
+
 def run_contracts(modname, names, tier, prefix, procs=None):
     """Run several contracts of one contract module in a process pool; returns list of result dicts."""
     jobs = [(modname, n, tier, prefix) for n in names]
     procs = procs or min(len(jobs), max(1, (os.cpu_count() or 4)))
     if procs <= 1 or len(jobs) == 1:
         return [_worker(j) for j in jobs]
+    # one process per contract.  A solver process can die (libz3 5.1 was seen to segfault once in some thousand runs): with
+    # multiprocessing.Pool the lost task would make map() wait for ever, so futures are used - a broken pool is noticed, the
+    # contracts that have no result yet are run again in a fresh pool (three rounds), and a contract whose process keeps dying
+    # is reported as undecided (never as a violation, never as a hang).
+    from concurrent.futures import ProcessPoolExecutor, as_completed
     ctx = mp.get_context('fork')
-    with ctx.Pool(procs) as pool:
-        return pool.map(_worker, jobs, chunksize=1)
+    results, pending, why = {}, list(range(len(jobs))), ''
+    def one_round(idx, workers):
+        nonlocal why
+        try:
+            with ProcessPoolExecutor(max_workers=workers, mp_context=ctx) as ex:
+                futs = {ex.submit(_worker, jobs[i]): i for i in idx}
+                for f in as_completed(futs, timeout=POOL_TIMEOUT_S):
+                    try:
+                        results[futs[f]] = f.result()
+                    except Exception as e:  # noqa  BrokenProcessPool for the futures of a dead pool
+                        why = repr(e)[:200]
+        except Exception as e:  # noqa  timeout of as_completed, BrokenProcessPool on shutdown
+            why = repr(e)[:200]
+    one_round(pending, min(procs, len(pending)))                 # all contracts in one pool
+    for _round in range(2):                                       # what is left: every contract in a pool of its own,
+        pending = [i for i in pending if i not in results]        # so that a dying process takes only its own contract along
+        for i in pending:
+            one_round([i], 1)
+    pending = [i for i in pending if i not in results]
+    for i in pending:
+        modname_, cname, _tier, pfx = jobs[i]
+        results[i] = {'contract': cname, 'error': None, 'stats': {}, 'target': cname, 'hash': 'unknown', 'imprecise': [],
+                      'obs': [{'name': f'{pfx}{cname}.solver_process', 'status': 'unknown', 'decisive': False, 'seconds': 0, 'n': 1,
+                               'witness': None, 'backend': '',
+                               'detail': f'the process that generates and solves the obligations of this contract died or did not '
+                                         f'finish in three attempts ({why}): undecided'}]}
+    return [results[i] for i in range(len(jobs))]
 
 
 def to_obs(results, res, replay=True):
